@@ -103,6 +103,7 @@ fn perturb(case: &mut Case, r: &mut Prng) -> &'static str {
                 (SigKind::Out, _) => SigKind::Bidir(d),
                 (SigKind::Bidir(v), 0) => SigKind::In(*v),
                 (SigKind::Bidir(_), _) => SigKind::Out,
+                (SigKind::Virtual(_), _) => SigKind::Out,
             };
             "change_direction"
         }
